@@ -88,16 +88,18 @@ type baseRec struct {
 	Voter map[string]baseVoter `json:"voter"`
 }
 type step struct {
-	Op   string           `json:"op"`
-	V    string           `json:"v,omitempty"`
-	Ty   string           `json:"t,omitempty"`
-	P    string           `json:"p,omitempty"`
-	A    int64            `json:"a,omitempty"`
-	S    string           `json:"s,omitempty"`
-	Off  int              `json:"off,omitempty"`
-	Term int              `json:"term,omitempty"`
-	Base *baseRec         `json:"base,omitempty"`
-	Res  *calcRes         `json:"res,omitempty"`
+	Op       string   `json:"op"`
+	V        string   `json:"v,omitempty"`
+	X        string   `json:"x,omitempty"`
+	Ty       string   `json:"t,omitempty"`
+	P        string   `json:"p,omitempty"`
+	A        int64    `json:"a,omitempty"`
+	S        string   `json:"s,omitempty"`
+	Off      int      `json:"off,omitempty"`
+	Term     int      `json:"term,omitempty"`
+	Base     *baseRec `json:"base,omitempty"`
+	Res      *calcRes `json:"res,omitempty"`
+	RateFail []string `json:"ratefail,omitempty"`
 }
 type scenario struct {
 	Cfg   modelCfg `json:"cfg"`
@@ -112,7 +114,9 @@ type outcome struct {
 func viol(key, f string, a ...interface{}) *outcome {
 	return &outcome{"violation", key, fmt.Sprintf(f, a...)}
 }
-func diverge(f string, a ...interface{}) *outcome { return &outcome{"divergence", "", fmt.Sprintf(f, a...)} }
+func diverge(f string, a ...interface{}) *outcome {
+	return &outcome{"divergence", "", fmt.Sprintf(f, a...)}
+}
 func machinery(f string, a ...interface{}) *outcome {
 	return &outcome{"machinery", "", fmt.Sprintf(f, a...)}
 }
@@ -173,6 +177,13 @@ func newConc(cfg modelCfg, rnd *rand.Rand) (*conc, error) {
 		c.br = icmodule.Rate(10000 * cfg.BRNum / cfg.BRDen)
 	}
 	return c, nil
+}
+
+func (c *conc) addrOf(x string) module.Address {
+	if a, ok := c.prep[x]; ok {
+		return a
+	}
+	return c.voter[x]
 }
 
 func (c *conc) amt(a int64) *big.Int { return new(big.Int).Mul(big.NewInt(a), c.scale) }
@@ -395,6 +406,7 @@ func (e *chainE) term(events []step) (map[string]int64, int64, *outcome) {
 	if err := back.AddGlobalV3(startHeight, icmodule.LatestRevision, cfg.T-1, cfg.Elected, c.br, rf, c.amt(cfg.MinBond)); err != nil {
 		return nil, 0, machinery("%v", err)
 	}
+	claimedNow := map[string]int64{} // I-Score claimed in this term: taken off the account by processClaim
 	for _, ev := range events {
 		var err error
 		switch ev.Op {
@@ -407,6 +419,11 @@ func (e *chainE) term(events []step) (map[string]int64, int64, *outcome) {
 			}
 		case "status":
 			_, err = back.AddEventEnable(ev.Off, c.prep[ev.P], statusOf(ev.S))
+		case "rate":
+			err = back.AddCommissionRate(c.prep[ev.P], icmodule.Rate(ev.A))
+		case "claim":
+			_, err = back.AddIScoreClaim(c.addrOf(ev.X), big.NewInt(ev.A))
+			claimedNow[ev.X] += ev.A
 		}
 		if err != nil {
 			return nil, 0, machinery("adding event: %v", err)
@@ -421,7 +438,9 @@ func (e *chainE) term(events []step) (map[string]int64, int64, *outcome) {
 		return nil, 0, machinery("calculator.New returned nil")
 	}
 	if err := calc.WaitResult(startHeight); err != nil {
-		return nil, 0, diverge("calculation failed: %v", err)
+		// the reward calculation of a term must succeed for every history: otherwise nothing is credited and the
+		// block that waits for the result cannot be executed
+		return nil, 0, viol("calculation-failed", "reward calculation failed: %v", err)
 	}
 	result := calc.Result()
 	if err := result.Flush(); err != nil {
@@ -438,7 +457,7 @@ func (e *chainE) term(events []step) (map[string]int64, int64, *outcome) {
 		if is != nil && is.Value() != nil {
 			v = is.Value().Int64()
 		}
-		out[name] = v - e.prev[name]
+		out[name] = v - e.prev[name] + claimedNow[name] // credited in this term
 		e.prev[name] = v
 		return nil
 	}
@@ -594,13 +613,19 @@ func runScenario(sc scenario, rnd *rand.Rand) (*outcome, map[string]interface{})
 					return o, info
 				}
 			}
-		case "vote", "status":
+		case "vote", "status", "rate", "claim":
 			events = append(events, s)
 		case "calc":
 			if base == nil || s.Res == nil {
 				return machinery("calc step without start"), info
 			}
 			if o := checkTerm(c, chain, base, events, s.Res, term, info); o != nil {
+				if o.key == "calculation-failed" && len(s.RateFail) > 0 {
+					o.key = "calculation-failed:commission-rate-of-pruned-prep"
+					o.what += fmt.Sprintf(" [history class: P-Rep %v set its commission rate in this term and was then disabled; it has no "+
+						"votes and its old rate is 0, so UpdateVoted drops its Voted record and processCommissionRate fails with "+
+						"'Non PRep set the commission rate']", s.RateFail)
+				}
 				return o, info
 			}
 			iiss3ok := term <= 1
@@ -766,6 +791,10 @@ func sig(sc scenario) string {
 			fmt.Fprintf(&sb, "%s%s%s%s%d@%d;", s.Op[:1], s.V, s.Ty, s.P, s.A, s.Off)
 		case "status":
 			fmt.Fprintf(&sb, "s%s%s@%d;", s.P, s.S, s.Off)
+		case "rate":
+			fmt.Fprintf(&sb, "r%s=%d;", s.P, s.A)
+		case "claim":
+			fmt.Fprintf(&sb, "c%s;", s.X)
 		case "start":
 			if s.Base != nil {
 				for _, n := range []string{"p1", "p2", "p3", "p4", "p5", "p6"} {
